@@ -18,6 +18,7 @@ import (
 	"path/filepath"
 	"regexp"
 	"sort"
+	"strings"
 )
 
 type localEntry struct {
@@ -26,6 +27,10 @@ type localEntry struct {
 	// Def: how the local is defined - the text of its initialiser (or of the ranged expression)
 	// with the names of the function's locals blanked, so that it survives renames
 	Def string `json:"d,omitempty"`
+	// Uses: the simple statements and conditions the local occurs in (names of locals blanked,
+	// sorted, at most 16): tells apart locals of one type that are defined alike (two ints
+	// starting at 0)
+	Uses []string `json:"u,omitempty"`
 }
 
 func localsOf(t *Target) []localEntry {
@@ -96,9 +101,72 @@ func localsOf(t *Target) []localEntry {
 		}
 		return true
 	})
+	uses := map[types.Object]map[string]bool{}
+	note := func(n ast.Node, text string) {
+		if len(text) > 100 {
+			text = text[:100]
+		}
+		text = blankNames(text, names)
+		ast.Inspect(n, func(m ast.Node) bool {
+			if _, ok := m.(*ast.FuncLit); ok {
+				return false
+			}
+			if id, ok := m.(*ast.Ident); ok {
+				o := t.pkg.TypesInfo.ObjectOf(id)
+				if v, ok := o.(*types.Var); ok && !v.IsField() && names[id.Name] {
+					if uses[o] == nil {
+						uses[o] = map[string]bool{}
+					}
+					uses[o][text] = true
+				}
+			}
+			return true
+		})
+	}
+	ast.Inspect(body, func(n ast.Node) bool {
+		switch x := n.(type) {
+		case *ast.AssignStmt, *ast.ExprStmt, *ast.IncDecStmt, *ast.ReturnStmt, *ast.DeclStmt:
+			note(n, nodeStr(n))
+		case *ast.IfStmt:
+			if x.Cond != nil {
+				note(x.Cond, "if "+nodeStr(x.Cond))
+			}
+		case *ast.ForStmt:
+			if x.Cond != nil {
+				note(x.Cond, "for "+nodeStr(x.Cond))
+			}
+		case *ast.RangeStmt:
+			note(x.X, "range "+nodeStr(x.X))
+		case *ast.SwitchStmt:
+			if x.Tag != nil {
+				note(x.Tag, "switch "+nodeStr(x.Tag))
+			}
+		}
+		return true
+	})
+	objAt := map[int]types.Object{}
+	ast.Inspect(body, func(n ast.Node) bool {
+		if id, ok := n.(*ast.Ident); ok {
+			if o, ok := t.pkg.TypesInfo.Defs[id].(*types.Var); ok && o != nil && !o.IsField() {
+				objAt[int(id.Pos())] = o
+			}
+		}
+		return true
+	})
 	for i := range l {
 		if l[i].e.Def != "" {
 			l[i].e.Def = blankNames(l[i].e.Def, names)
+		}
+		if o := objAt[l[i].pos]; o != nil {
+			var u []string
+			for k := range uses[o] {
+				u = append(u, k)
+			}
+			sort.Strings(u)
+			if len(u) > 16 {
+				u = u[:16]
+			}
+			l[i].e.Uses = u
 		}
 	}
 	// implicit objects of type switches (`switch v := x.(type)`) are not renamable one by one; skipped
@@ -160,7 +228,7 @@ func renameMap(base, cur []localEntry) map[string]string {
 	}
 	for i := n - 1; i >= 0; i-- {
 		for k := m - 1; k >= 0; k-- {
-			if base[i] == cur[k] {
+			if sameEntry(base[i], cur[k]) {
 				l[i][k] = l[i+1][k+1] + 1
 			} else if l[i+1][k] >= l[i][k+1] {
 				l[i][k] = l[i+1][k]
@@ -200,6 +268,25 @@ func renameMap(base, cur []localEntry) map[string]string {
 		if len(cand) == 1 && nb == 1 {
 			out[b.Name] = cand[0]
 			taken[cand[0]] = true
+		} else if len(cand) > 1 {
+			// several locals of this type are defined alike: the one that is used alike
+			best, bestSim, second := "", 0.0, 0.0
+			for _, cn := range cand {
+				for _, c := range cur {
+					if c.Name == cn {
+						if sim := usageSim(b.Uses, c.Uses); sim > bestSim {
+							best, second, bestSim = cn, bestSim, sim
+						} else if sim > second {
+							second = sim
+						}
+						break
+					}
+				}
+			}
+			if best != "" && bestSim > 0.3 && bestSim > second {
+				out[b.Name] = best
+				taken[best] = true
+			}
 		}
 	}
 	flush := func(bs, cs []localEntry) {
@@ -230,7 +317,7 @@ func renameMap(base, cur []localEntry) map[string]string {
 	var gb, gc []localEntry
 	for i < n && k < m {
 		switch {
-		case base[i] == cur[k]:
+		case sameEntry(base[i], cur[k]):
 			flush(gb, gc)
 			gb, gc = nil, nil
 			i++
@@ -249,15 +336,8 @@ func renameMap(base, cur []localEntry) map[string]string {
 	for b := range bad {
 		delete(out, b)
 	}
-	// a name that occurs several times (shadowing) must have been renamed everywhere alike;
-	// every vanished name must have found a partner, otherwise nothing is rebound
-	for nme := range inBase {
-		if !inCur[nme] {
-			if _, ok := out[nme]; !ok {
-				return nil
-			}
-		}
-	}
+	// a vanished name that found no partner (a range value that was dropped, say) stays unbound:
+	// a clause that names it will not bind, the others are unaffected
 	if len(out) == 0 {
 		return nil
 	}
@@ -423,6 +503,71 @@ func loopMap(base, cur []string) map[int]int {
 			k++
 		}
 	}
+	// second pass: a recorded entry that found no exact partner (its body or header was edited) is
+	// matched to an unmatched current entry with the same weak fingerprint (the part before the
+	// first " |": what is ranged over, resp. the signature) that lies between the partners of its
+	// matched neighbours
+	weak := func(fp string) string {
+		if i := strings.Index(fp, " |"); i >= 0 {
+			return fp[:i]
+		}
+		return fp
+	}
+	curOf := map[int]int{} // recorded ordinal -> current ordinal
+	for c, b := range out {
+		curOf[b] = c
+	}
+	// walk the gaps between exactly matched neighbours; inside a gap, the unmatched recorded entries
+	// of one weak fingerprint are mapped, in order, onto the last as many unmatched current entries
+	// of that fingerprint (additions usually come first)
+	b := 1
+	for b <= n {
+		if _, ok := curOf[b]; ok {
+			b++
+			continue
+		}
+		bEnd := b
+		for bEnd <= n {
+			if _, ok := curOf[bEnd]; ok {
+				break
+			}
+			bEnd++
+		}
+		lo, hi := 0, m+1
+		if b > 1 {
+			lo = curOf[b-1]
+		}
+		if bEnd <= n {
+			hi = curOf[bEnd]
+		}
+		byWeakB := map[string][]int{}
+		var order []string
+		for bb := b; bb < bEnd; bb++ {
+			w := weak(base[bb-1])
+			if _, seen := byWeakB[w]; !seen {
+				order = append(order, w)
+			}
+			byWeakB[w] = append(byWeakB[w], bb)
+		}
+		for _, w := range order {
+			var cands []int
+			for c := lo + 1; c < hi; c++ {
+				if _, taken := out[c]; !taken && weak(cur[c-1]) == w {
+					cands = append(cands, c)
+				}
+			}
+			bs := byWeakB[w]
+			if len(cands) < len(bs) {
+				continue
+			}
+			off := len(cands) - len(bs)
+			for i, bb := range bs {
+				out[cands[off+i]] = bb
+				curOf[bb] = cands[off+i]
+			}
+		}
+		b = bEnd
+	}
 	for k := 1; k <= m; k++ {
 		if _, ok := out[k]; !ok {
 			out[k] = 1000 + k
@@ -444,4 +589,24 @@ func loadLits(verif string) map[string][]string {
 func saveLits(verif string, m map[string][]string) {
 	b, _ := json.MarshalIndent(m, "", " ")
 	os.WriteFile(litsFile(verif), append(b, '\n'), 0o644)
+}
+
+func sameEntry(a, b localEntry) bool { return a.Name == b.Name && a.Type == b.Type && a.Def == b.Def }
+
+// usageSim: Jaccard similarity of two sorted lists of statement shapes.
+func usageSim(a, b []string) float64 {
+	if len(a) == 0 || len(b) == 0 {
+		return 0
+	}
+	in := map[string]bool{}
+	for _, x := range a {
+		in[x] = true
+	}
+	n := 0
+	for _, x := range b {
+		if in[x] {
+			n++
+		}
+	}
+	return float64(n) / float64(len(a)+len(b)-n)
 }
